@@ -23,3 +23,8 @@ chk("C01", "exploration",
     "Plain -O2 build; rejected writes (any std::exception) are accepted; 2.x waveform judged only by 'every output point occurs in the input in order' plus the fixed point; 1.x tempo policy recorded as known findings with policy-specific keys so any other bpm corruption still alarms.",
     "runtime monitoring of real create/update/snapshot executions against a per-field reference normalisation and a fixed-point oracle",
     "DESIGN.md section 4, C01")
+chk("C06", "exploration",
+    "Histories of 20-40 single-field setter calls (all 24 setters plus set_hot_cue_at/set_loop_at at every index, clearing calls, storage-coupled pairs favoured) over 2-3 richly populated tracks on all 18 schema versions; after every call the complete public view of every track (25 getters, 16 per-slot getters, file name/extension, snapshot()) is observed and compared with the previous observation updated by N(value) in exactly the targeted field: getter-after-set, getter == snapshot field, no other field of the track, no field of another track. A throwing setter must change nothing and may throw only for an 'absent'-sentinel value.",
+    "Plain -O2 build; initial state adopted from the first observation; 2.x waveform getter judged as opaque resampling; indices and waveform preconditions stay in contract (C15 covers the rest).",
+    "runtime monitoring of setter histories with a per-track reference model and a frame-condition diff over full observations",
+    "DESIGN.md section 4, C06")
